@@ -488,7 +488,10 @@ def importEffects : List (String × String × String) :=
    ("template_funcs.py", "StandardFuncs", "setattr(Functions, 'if', Functions.if_)"),
    ("template_funcs.py", "StandardFuncs", "setattr(Functions, 'null', None)"),
    ("template_funcs.py", "StandardFuncs", "setattr(Functions, 'relativedelta', relativedelta)"),
-   ("utils/scrambled_numbers.py", "<module>", "_test_scrambling_is_safe(50)")]
+   ("utils/scrambled_numbers.py", "<module>", "_test_scrambling_is_safe(50)"),
+   -- Decimal round trip through continuation files (fix: commit cf894eb): constant registrations
+   ("utils/yaml_utils.py", "<module>", "SafeLoader.add_constructor('!snowfakery_decimal', lambda loader, node: Decimal(loader.construct_scalar(node)))"),
+   ("utils/yaml_utils.py", "<module>", "SnowfakeryDumper.add_representer(Decimal, lambda dumper, value: dumper.represent_scalar('!snowfakery_decimal', str(value)))")]
 
 /-- `generate_data(dburls=[])`: rebound (`dburls = dburls or …`), never mutated -/
 def mutableDefaults : List (String × String × String) :=
